@@ -10,6 +10,7 @@ import (
 	"path/filepath"
 	"regexp"
 	"strings"
+	"syscall"
 	"time"
 
 	"gopkg.in/yaml.v3"
@@ -500,10 +501,129 @@ func checkC12(c *Ctx) error {
 		}
 	}
 	c.Set("max_run_ms", int(maxDur/time.Millisecond))
+	c12OutputKinds(c)
 	if c.Thorough() || os.Getenv("VERIF_C12_FUZZ") != "" {
 		return c12NativeFuzz(c, corpus)
 	}
 	return nil
+}
+
+// c12OutputKinds: the value of -o is as arbitrary as the inputs. A named pipe somebody reads from (what `-o >(gofmt)` or
+// `-o /dev/stdout | ...` amount to), a link to one, /dev/null: the run ends, status 0 or 1, and on status 0 the reader has received
+// exactly what a regular file would hold. The pipe is drained by this process while the tool runs.
+func c12OutputKinds(c *Ctx) {
+	w := c.W
+	good := "meta:\n  pkg: gen\nparameters:\n  a: 1\n  b: \"%a%-%a%\"\nservices:\n  s:\n    value: \"Global\"\n"
+	bad := "parameters:\n  a: \"%b%\"\n  b: \"%a%\"\n"
+	for k, kind := range []string{"fifo", "link-to-fifo", "dev-null", "fifo", "link-to-fifo", "fifo-stub"} {
+		for vi, y := range []string{good, bad} {
+			hangs := 0
+			var last cli.Run
+			var got string
+			for attempt := 0; attempt < 3; attempt++ {
+				dir := w.TempDir("c12o")
+				_ = work.WriteFile(filepath.Join(dir, "in.yaml"), []byte(y))
+				out := filepath.Join(dir, "out.go")
+				stop := make(chan struct{})
+				done := make(chan string, 1)
+				if kind != "dev-null" {
+					target := out
+					if kind == "link-to-fifo" {
+						target = filepath.Join(dir, "the-pipe")
+						_ = os.Symlink(target, out)
+					}
+					if err := syscall.Mkfifo(target, 0o644); err != nil {
+						c.Inconclusive("cannot create a named pipe: " + err.Error())
+						return
+					}
+					fd, err := syscall.Open(target, syscall.O_RDONLY|syscall.O_NONBLOCK, 0)
+					if err != nil {
+						c.Inconclusive("cannot open the named pipe: " + err.Error())
+						return
+					}
+					go func() {
+						var sb strings.Builder
+						buf := make([]byte, 1<<16)
+						for {
+							n, err := syscall.Read(fd, buf)
+							if n > 0 {
+								sb.Write(buf[:n])
+								continue
+							}
+							_ = err
+							select {
+							case <-stop:
+								// the tool has exited: whatever is still in the pipe
+								for {
+									n, _ := syscall.Read(fd, buf)
+									if n <= 0 {
+										break
+									}
+									sb.Write(buf[:n])
+								}
+								_ = syscall.Close(fd)
+								done <- sb.String()
+								return
+							default:
+								time.Sleep(2 * time.Millisecond)
+							}
+						}
+					}()
+				} else {
+					out = "/dev/null"
+					go func() { <-stop; done <- "" }()
+				}
+				args := []string{"build", "-i", "in.yaml", "-o", out}
+				if kind == "fifo-stub" {
+					args = append(args, "--stub")
+				}
+				last = cli.Do(w, "", nil, dir, "", args...)
+				close(stop)
+				got = <-done
+				c.Add("runs_with_special_output_paths", 1)
+				if !(last.Res.TimedOut || last.Res.Dur > 20*time.Second) {
+					break
+				}
+				hangs++
+			}
+			files := map[string]string{"input/in.yaml": y, "args.txt": strings.Join(last.Args, " "), "stdout.txt": last.Res.Stdout, "stderr.txt": last.Res.Stderr, "output-kind.txt": kind}
+			c.Eval(fmt.Sprintf("output-kind:%s:%d:%d", kind, vi, k), true)
+			if hangs == 3 {
+				c.Violate("hang", fmt.Sprintf("-o is a %s with a reader: the run was stopped by the watchdog three times in a row", kind), files)
+				continue
+			}
+			if rePanic.MatchString(last.Res.Stderr) {
+				c.Violate("panic:"+panicSite(last.Res.Stderr), "-o is a "+kind+": the tool panicked\n"+firstLines(last.Res.Stderr, 25), files)
+				continue
+			}
+			if last.Res.Exit != 0 && last.Res.Exit != 1 {
+				c.Violate("contract:exit-status", fmt.Sprintf("-o is a %s: exit status %d", kind, last.Res.Exit), files)
+			}
+			if want := map[int]int{0: 0, 1: 1}[vi]; last.Res.Exit != want && !last.Res.TimedOut {
+				c.Violate("output-kind-changes-verdict", fmt.Sprintf("-o is a %s: exit status %d, with a regular file it is %d", kind, last.Res.Exit, want), files)
+			}
+			if kind != "dev-null" && last.Res.Exit == 0 {
+				// what the reader received = what a regular file holds
+				d2 := w.TempDir("c12o")
+				_ = work.WriteFile(filepath.Join(d2, "in.yaml"), []byte(y))
+				a2 := append([]string{}, last.Args...)
+				for i := range a2 {
+					if a2[i] == "-o" {
+						a2[i+1] = filepath.Join(d2, "plain.go")
+					}
+				}
+				r2 := cli.Do(w, "", nil, d2, "", a2...)
+				b, _ := os.ReadFile(filepath.Join(d2, "plain.go"))
+				if r2.Res.Exit != 0 || string(b) != got {
+					files["received.txt"] = got
+					c.Violate("output-through-pipe-differs", fmt.Sprintf("-o is a %s: the reader received %d bytes, a regular file holds %d", kind, len(got), len(b)), files)
+				}
+			}
+			if last.Res.Exit != 0 && got != "" {
+				c.Violate("failing-run-wrote-output", fmt.Sprintf("-o is a %s: a failing run wrote %d bytes", kind, len(got)), files)
+			}
+		}
+	}
 }
 
 var rePanicSite = regexp.MustCompile(`(?m)^\s+(\S+\.go):\d+`)
